@@ -159,6 +159,7 @@ void a_pid_fuzzy_out_(a_pid_fuzzy *ctx, a_real ec, a_real e)
             }
             ctx->idx[i] *= ctx->nrule;
         }
+        if (!(inv > 0)) { goto exit; } /* no rule fired (e.g. bounded product of small degrees) */
         inv = 1 / inv;
     }
     /* mean of centers defuzzifier */
